@@ -1,4 +1,5 @@
 import Regatta.Proofs.Iter
+import Regatta.Proofs.ChunkSize
 import Regatta.Proofs.Key
 /-
   C09 — Range reads are sorted, bounded, truthful about `more`, and page losslessly.
@@ -91,6 +92,18 @@ iterator = one point-in-time view of a sorted store); with C12's order preservat
 user keys are strictly ascending and duplicate-free -/
 theorem c09_sorted (db : Db) (lo hi : Bytes) (h : SMap.Sorted db) : SMap.Sorted (SMap.range lo hi db) :=
   SMap.sorted_range lo hi db h
+
+/-- **every message fits**: whatever the fill kind and limit, every chunk of the stream (hence also
+the unary answer, which is the first chunk) is smaller than the gRPC message limit by at least 512
+bytes — the room the response header needs — provided every pair respects the key and value limits
+that every record-creating path enforces (C16).  The size cut compares the encoded size so far plus
+the raw size of the next pair with `maxRangeSize` = limit − 1 KiB; the per-pair encoding overhead
+(≤ 13 bytes) and the `more` / `count` fields (≤ 13 bytes) are absorbed by that 1 KiB -/
+theorem c09_chunk_size (k : FillKind) (limit : Int) (pairs : List (Bytes × Val))
+    (hp : ∀ p ∈ pairs, p.1.length ≤ Extracted.latestVersionLen ∧ p.2.size ≤ Extracted.maxValueLen) :
+    ∀ c ∈ iterLoop k limit pairs 0 {}, c.sizeVT + 512 < Extracted.defaultMaxGRPCSize :=
+  -- the limits are the source's current constants (regenerated on every run)
+  ChunkSize.iterLoop_sizes k limit pairs 0 {} ⟨rfl, by decide⟩ hp
 
 /-- non-vacuity / regression witness for D1: five pairs, `limit = 4` — the answer carries four
 pairs and `more`; with `limit = 5` it carries five and no `more` -/
